@@ -66,6 +66,9 @@ class Contract:
         # that callee are assumed after a call (assuming fewer postconditions is always sound; it keeps the
         # solver's context small - the callee may state a clause in an opaque form for this purpose)
         self.callee_clauses: dict = {}
+        # the function returns an object it has created: at call sites the result is a newly allocated object (distinct
+        # from every object alive before the call); at the definition "the result was not alive in the pre-state" is an obligation
+        self.fresh_result = False
         for st in node.body:
             if isinstance(st, ast.FunctionDef):
                 if st.name in ("requires", "ensures", "raises", "modifies", "raises_ensures"):
@@ -81,7 +84,7 @@ class Contract:
                     self.types = ast.literal_eval(st.value)
                 elif n in ("returns", "self_class", "may_raise", "callee_clauses"):
                     setattr(self, n, ast.literal_eval(st.value))
-                elif n in ("inline", "pure_inline", "exact_self", "trusted", "interface", "ghost_def"):
+                elif n in ("inline", "pure_inline", "exact_self", "trusted", "interface", "ghost_def", "fresh_result"):
                     setattr(self, n, bool(ast.literal_eval(st.value)))
 
     def text_hash(self):
@@ -415,6 +418,10 @@ class ContractDB:
         rty = self.return_type(it, con, fi)
         if rty is None or rty is TNone:
             result = NONE
+        elif con.fresh_result and isinstance(rty, TObj):
+            fresh = it.alloc(rty.cls)
+            result = it.assume_wf(SV(rty, fresh.term))
+            it.notes.add(f"result of {fi.qname} is a newly allocated object (contract {con.name}: fresh_result)")
         else:
             result = it.assume_wf(it.fresh_sv("res_" + fi.name, rty))
         if con.ensures is not None:
@@ -422,13 +429,15 @@ class ContractDB:
             e2["result"] = result
             nfr = self.contract_frame(it, con, self.fn_env(con.ensures, e2), fr, old_heap=old_heap, old_env=env)
             sel = getattr(fr.contract, "callee_clauses", {}).get(fi.qname) if getattr(fr, "contract", None) is not None else None
+            facts = []
             for name, term in self.eval_clauses_fn(it, con.ensures, nfr):
                 if name.startswith("D_"):
                     continue        # unfolding of an opaque definition, local to the callee's own proof
                 if sel is not None and name.split("#")[0] not in sel:
                     it.notes.add(f"postcondition {name} of {fi.qname} not used in this function (callee_clauses)")
                     continue
-                it.assume(term)
+                facts.append(term)
+            it.assume_all_checked(facts, f"the postcondition of {fi.qname} (contract {con.name})")
         self._assume_ghost_defs(it, con, fi, env, result, fr, old_heap)
         return result
 
@@ -619,6 +628,20 @@ class ContractDB:
                     if init is not None:
                         visit_fn(init)
                 return
+            # Class.method(...): the method of that class (a classmethod / static call)
+            if isinstance(f.value, ast.Name) and f.value.id not in fr.env:
+                r = self.w.deref_const(self.w.resolve_name(module, f.value.id))
+                if r is None:
+                    # a class imported inside the function body (from .mod import Class)
+                    for mi in self.w.modules.values():
+                        if f.value.id in mi.classes and mi.name.rsplit(".", 1)[0] == module.rsplit(".", 1)[0]:
+                            r = ("class", mi.classes[f.value.id])
+                            break
+                if r is not None and r[0] == "class":
+                    m = self.w.find_method(r[1].qname, name)
+                    if m is not None:
+                        visit_fn(m, r[1].qname)
+                        return
             # method call: use the static type of the receiver where it is known
             rty = static_ty(f.value) if module == fr.module else None
             from .tys import TSeq as _S, TDict as _D, TSet as _T, TStr as _Str, TRec as _R, TTuple as _Tu
